@@ -155,16 +155,18 @@ theorem respApdu_isReply {a : Apdu} (hid : a.invokeId < 256) (hsvc : a.service <
 theorem appPass_nil {σ} (cfg : DevCfg σ) (s : DevState σ) : appPass cfg s [] = (s, []) := by
   rw [appPass]
 
-theorem appPass_indicate0 {σ} (cfg : DevCfg σ) (s : DevState σ) (p : Peer) (a : Apdu) (h0 : a.ty = 0) :
+theorem appPass_indicate0 {σ} (cfg : DevCfg σ) (s : DevState σ) (p : Peer) (a : Apdu) (h0 : a.ty = 0)
+    {ans : AppAnswer} (hans : (cfg.serve s.app p a).2.answer = some ans) :
     appPass cfg s [.indicate p a] =
       (({ s with
           sap := (step cfg.tsm (applyDcc s.sap (cfg.serve s.app p a).2.dcc)
-                    (.response p (respApdu a (cfg.serve s.app p a).2.answer))).1,
-          app := (cfg.serve s.app p a).1 } : DevState σ),
+                    (.response p (respApdu a ans))).1,
+          app := (cfg.serve s.app p a).1,
+          dccTimer := newDccTimer s.sap.now s.dccTimer (cfg.serve s.app p a).2 } : DevState σ),
        (step cfg.tsm (applyDcc s.sap (cfg.serve s.app p a).2.dcc)
-          (.response p (respApdu a (cfg.serve s.app p a).2.answer))).2) := by
+          (.response p (respApdu a ans))).2) := by
   rw [appPass, if_pos h0]
-  simp only [appPass_nil, List.append_nil]
+  simp only [appPass_nil, List.append_nil, hans, answerStep]
 
 theorem appPass_send {σ} (cfg : DevCfg σ) (s : DevState σ) (p : Peer) (x : Apdu) :
     appPass cfg s [.send p x] = (s, [.send p x]) := by
@@ -193,7 +195,8 @@ structure Answered {σ} (s s' : DevState σ) (k : Key) (outs : List Out) : Prop 
 theorem deliver_fresh {σ} (cfg : DevCfg σ) (hw : cfg.base.window < 256) (s : DevState σ) (k : Key)
     (a : Apdu) (h0 : a.ty = 0) (hseg : a.seg = false) (hid : a.invokeId = k.id) (hlt : k.id < 256)
     (hsvc : a.service < 256) (hdcc : dccInbound s.sap.dcc a = true)
-    (hfree : findTxn k s.sap.servers = none) :
+    (hfree : findTxn k s.sap.servers = none)
+    (hsync : ∀ st, ((cfg.serve st k.peer a).2.answer).isSome = true) :
     Answered s (deliver cfg s k.peer a).1 k (deliver cfg s k.peer a).2 := by
   have hk : (⟨k.peer, a.invokeId⟩ : Key) = k := by rw [hid]
   unfold deliver
@@ -232,8 +235,9 @@ theorem deliver_fresh {σ} (cfg : DevCfg σ) (hw : cfg.base.window < 256) (s : D
     · have hok' : cfg.tsm.reqDecode a.service a.data = .ok := hok
       rw [hok']
       simp only [List.append_nil]
-      rw [appPass_indicate0 cfg _ _ _ h0]
-      obtain ⟨hrep, hrs⟩ := respApdu_isReply hida hsvc (cfg.serve s.app k.peer a).2.answer
+      obtain ⟨ans, hans⟩ := Option.isSome_iff_exists.1 (hsync s.app)
+      rw [appPass_indicate0 cfg { s with sap := sapC } _ _ h0 hans]
+      obtain ⟨hrep, hrs⟩ := respApdu_isReply hida hsvc ans
       rw [hid] at hrep
       obtain ⟨x, hx, hcase⟩ := smapResponse_fresh (cfg := cfg.tsm) (by simpa using hw)
         (sap1 := applyDcc sapC (cfg.serve s.app k.peer a).2.dcc) (by rw [happlyS]; exact hSC) hfree hrep hrs
